@@ -1,0 +1,42 @@
+//! Verification hook (feature `verif_hooks`): records the source reads a `Lexer` performs.
+//! Inert unless [`arm`] has been called on the current thread.
+
+use std::cell::RefCell;
+use std::vec::Vec;
+
+/// One recorded event.
+#[derive(Clone, Copy, Debug, PartialEq, Eq)]
+pub enum Event {
+    /// A match attempt starts at this offset (`next`, or restart after a skip)
+    Attempt(usize),
+    /// `read` of a chunk of `size` bytes at `offset`
+    Read {
+        /// offset passed to `read`
+        offset: usize,
+        /// chunk size in bytes
+        size: usize,
+    },
+}
+
+thread_local! {
+    static TRACE: RefCell<Option<Vec<Event>>> = const { RefCell::new(None) };
+}
+
+/// Start recording on this thread (clears any previous trace).
+pub fn arm() {
+    TRACE.with(|trace| *trace.borrow_mut() = Some(Vec::new()));
+}
+
+/// Stop recording and return the trace.
+pub fn take() -> Vec<Event> {
+    TRACE.with(|trace| trace.borrow_mut().take()).unwrap_or_default()
+}
+
+#[inline]
+pub(crate) fn record(event: Event) {
+    TRACE.with(|trace| {
+        if let Some(trace) = trace.borrow_mut().as_mut() {
+            trace.push(event);
+        }
+    });
+}
